@@ -29,8 +29,8 @@ def run_rt(script, name, tier, seed, n_quick, n_thorough, timeout=600):
     out["bounded"] = {"checker": f"rt/{script}", "what": name, "cases": res.get("tried", 0), "seed": seed, "label": "bounded, not counted as proved"}
     out["summary"] = f"rt/{script}: {res.get('tried', 0)} concrete cases on the real code, failing={res.get('failing') is not None}"
     if res.get("failing") is not None:
-        inp = res["failing"]
-        for v in res.get("violated", ["?"])[:1]:
+        allf = res.get("all") or {res.get("violated", ["?"])[0]: res["failing"]}
+        for v, inp in sorted(allf.items()):
             out["violations"].append(
                 {
                     "name": f"{name}/{v}",
